@@ -138,6 +138,28 @@ func (x *Exec) wfInstance(st *State, t *Table, key string) {
 	}
 }
 
+// wfTerm: the same instance as wfInstance, as a term (for contracts: `(wf T S key)`).
+func (s *Session) wfTerm(st *State, t *Table, key string) string {
+	x := &Exec{s: s}
+	has := fmt.Sprintf("(select %s %s)", s.comp(st, t.Name+".has"), key)
+	var cs []string
+	for _, u := range t.Unique {
+		var uk []string
+		for _, f := range u.Fields {
+			uk = append(uk, x.fieldAt(st, t, f, key))
+		}
+		ukey := mkKey(uk)
+		cs = append(cs, implies(has, and(
+			fmt.Sprintf("(select %s %s)", s.comp(st, t.Name+".by"+u.Name+".has"), ukey),
+			eq(fmt.Sprintf("(select %s %s)", s.comp(st, t.Name+".by"+u.Name+".key"), ukey), key))))
+	}
+	if t.AutoInc {
+		seq := fmt.Sprintf("(select %s 0)", s.comp(st, t.Name+".seq"))
+		cs = append(cs, fmt.Sprintf("(>= %s 0)", seq), implies(has, fmt.Sprintf("(and (<= 1 %s) (<= %s %s))", key, key, seq)))
+	}
+	return and(cs...)
+}
+
 func (x *Exec) wfUnique(st *State, t *Table, u *UniqueIdx, ukey string, uk []string) {
 	s := x.s
 	found := fmt.Sprintf("(select %s %s)", s.comp(st, t.Name+".by"+u.Name+".has"), ukey)
@@ -152,7 +174,13 @@ func (x *Exec) wfUnique(st *State, t *Table, u *UniqueIdx, ukey string, uk []str
 // rowObject builds the fresh message object that Get returns for the row under key.
 func (x *Exec) rowObject(st *State, t *Table, key string) *Loc {
 	s := x.s
-	stt := t.Row.Underlying().(*types.Struct)
+	r := x.buildMsg(st, t, t.Row, t.Fields, t.Name, key, true)
+	return s.newLoc(st, s.fresh("row:"+t.Name), t.Row, r)
+}
+
+func (x *Exec) buildMsg(st *State, t *Table, typ types.Type, fields []*TField, prefix, key string, top bool) Rec {
+	s := x.s
+	stt := typ.Underlying().(*types.Struct)
 	r := Rec{F: make([]Val, stt.NumFields())}
 	for i := 0; i < stt.NumFields(); i++ {
 		r.F[i] = Opaque{"unmodelled field " + stt.Field(i).Name()}
@@ -167,37 +195,30 @@ func (x *Exec) rowObject(st *State, t *Table, key string) *Loc {
 			return scInt(term)
 		}
 	}
-	for _, f := range t.Fields {
+	for _, f := range fields {
 		isPK := -1
-		for i, p := range t.PK {
-			if p == f {
-				isPK = i
+		if top {
+			for i, p := range t.PK {
+				if p == f {
+					isPK = i
+				}
 			}
 		}
 		switch {
 		case isPK >= 0:
 			r.F[f.Idx] = mk(f, keyComponent(t, key, isPK))
-		case f.Kind == "msg":
-			set := fmt.Sprintf("(select %s %s)", s.comp(st, t.Name+"."+f.Go+".set"), key)
-			sst := f.SubT.Underlying().(*types.Struct)
-			sr := Rec{F: make([]Val, sst.NumFields())}
-			for i := 0; i < sst.NumFields(); i++ {
-				sr.F[i] = Opaque{"unmodelled field " + sst.Field(i).Name()}
-			}
-			for _, sf := range f.Sub {
-				if sf.Kind == "int" || sf.Kind == "string" || sf.Kind == "bytes" || sf.Kind == "bool" {
-					sr.F[sf.Idx] = mk(sf, fmt.Sprintf("(select %s %s)", s.comp(st, t.Name+"."+f.Go+"."+sf.Go), key))
-				}
-			}
-			l := s.newLoc(st, s.fresh(t.Name+"."+f.Go), f.SubT, sr)
+		case f.Kind == "msg" && f.Sub != nil:
+			set := fmt.Sprintf("(select %s %s)", s.comp(st, prefix+"."+f.Go+".set"), key)
+			sr := x.buildMsg(st, t, f.SubT, f.Sub, prefix+"."+f.Go, key, false)
+			l := s.newLoc(st, s.fresh(prefix+"."+f.Go), f.SubT, sr)
 			r.F[f.Idx] = Ptr{Loc: l, Nil: not(set)}
-		case f.Kind == "int" || f.Kind == "string" || f.Kind == "bytes" || f.Kind == "bool":
-			r.F[f.Idx] = mk(f, fmt.Sprintf("(select %s %s)", s.comp(st, t.Name+"."+f.Go), key))
+		case isScalarKind(f.Kind):
+			r.F[f.Idx] = mk(f, fmt.Sprintf("(select %s %s)", s.comp(st, prefix+"."+f.Go), key))
 		default:
 			r.F[f.Idx] = Opaque{"unmodelled field kind " + f.Kind + " of " + f.Go}
 		}
 	}
-	return s.newLoc(st, s.fresh("row:"+t.Name), t.Row, r)
+	return r
 }
 
 func (s *Session) bytesFromCode(st *State, code string) Slice {
@@ -270,66 +291,70 @@ func (x *Exec) rowTerms(st *State, fr *frame, t *Table, ptr Val) (pk []string, l
 	}
 	leaves = map[string]string{}
 	fields = map[string]string{}
+	x.readMsg(st, t, r, t.Fields, t.Name, "false", leaves, fields, true)
+	for _, f := range t.PK {
+		pk = append(pk, fields[f.Go])
+	}
+	return
+}
+
+// readMsg reads the (nested) message r into leaf terms; `absent` is the condition under which the
+// enclosing message pointer is nil (then leaves read as zero values).
+func (x *Exec) readMsg(st *State, t *Table, r Rec, fs []*TField, prefix, absent string, leaves, fields map[string]string, top bool) {
+	s := x.s
 	sc := func(f *TField, v Val) string {
 		switch a := v.(type) {
 		case Sc:
 			return a.T
 		case Slice:
 			return s.bcode(st, a)
-		case Opaque:
-			// unmodelled content: an unconstrained code
-			return s.declare(s.fresh("opaque:"+f.Go), "Int")
 		}
-		if f.Kind == "oneof" || f.Kind == "" {
-			return s.declare(s.fresh("opaque:"+f.Go), "Int")
-		}
-		subsetf("row field %s of kind %T", f.Go, v)
-		return ""
+		return s.declare(s.fresh("opaque:"+f.Go), "Int")
 	}
-	for _, f := range t.Fields {
-		v := r.F[f.Idx]
-		if f.Kind == "msg" {
+	for _, f := range fs {
+		var v Val = Opaque{}
+		if r.F != nil {
+			v = r.F[f.Idx]
+		}
+		if f.Kind == "msg" && f.Sub != nil {
 			sp, ok := v.(Ptr)
 			if !ok {
-				subsetf("row field %s is %T", f.Go, v)
+				if r.F != nil {
+					subsetf("row field %s is %T", f.Go, v)
+				}
+				sp = Ptr{Nil: "true"}
 			}
-			leaves[t.Name+"."+f.Go+".set"] = not(sp.Nil)
+			nilc := or(absent, sp.Nil)
+			leaves[prefix+"."+f.Go+".set"] = not(nilc)
 			var sr Rec
 			if sp.Loc != nil {
 				sr, _ = s.load(st, sp).(Rec)
 			}
-			for _, sf := range f.Sub {
-				if !(sf.Kind == "int" || sf.Kind == "string" || sf.Kind == "bytes" || sf.Kind == "bool") {
-					continue
-				}
-				zero := "0"
-				if sf.Kind == "bool" {
-					zero = "false"
-				}
-				val := zero
-				if sp.Loc != nil && sr.F != nil {
-					val = ite(sp.Nil, zero, sc(sf, sr.F[sf.Idx]))
-				}
-				leaves[t.Name+"."+f.Go+"."+sf.Go] = val
-			}
+			x.readMsg(st, t, sr, f.Sub, prefix+"."+f.Go, nilc, leaves, fields, false)
 			continue
 		}
-		term := sc(f, v)
-		fields[f.Go] = term
-		isPK := false
-		for _, pkf := range t.PK {
-			if pkf == f {
-				isPK = true
+		zero := "0"
+		if f.Kind == "bool" {
+			zero = "false"
+		}
+		term := zero
+		if r.F != nil {
+			term = ite(absent, zero, sc(f, v))
+		}
+		if top {
+			fields[f.Go] = term
+			isPK := false
+			for _, pkf := range t.PK {
+				if pkf == f {
+					isPK = true
+				}
+			}
+			if isPK {
+				continue
 			}
 		}
-		if !isPK {
-			leaves[t.Name+"."+f.Go] = term
-		}
+		leaves[prefix+"."+f.Go] = term
 	}
-	for _, f := range t.PK {
-		pk = append(pk, fields[f.Go])
-	}
-	return
 }
 
 // ghostTerm evaluates the summand of a ghost sum over a row given as field terms.
@@ -456,6 +481,7 @@ func (x *Exec) ormWrite(st *State, fr *frame, t *Table, op string, rowPtr Val, k
 	}
 	// success path
 	st.assume(ok)
+	st.wcount[t.Name]++
 	// ghost sums: remove the old row's contribution, add the new one
 	for _, g := range s.Spec.GhostSums {
 		if g.Table != t.Name {
@@ -497,6 +523,14 @@ func (x *Exec) ormWrite(st *State, fr *frame, t *Table, op string, rowPtr Val, k
 			sq := t.Name + ".seq"
 			cur := fmt.Sprintf("(select %s 0)", s.comp(st, sq))
 			s.setComp(st, sq, fmt.Sprintf("(store %s 0 %s)", s.comp(st, sq), ite(isInsert, "(+ "+cur+" 1)", cur)))
+		}
+	}
+	if t.AutoInc && op != "Delete" {
+		// the ORM stores the assigned id into the message
+		if p, ok := rowPtr.(Ptr); ok && p.Loc != nil {
+			np := p
+			np.Path = append(append([]int(nil), p.Path...), t.PK[0].Idx)
+			s.store(st, np, scInt(key))
 		}
 	}
 	okRes := Val(Err{"0", "0"})
